@@ -74,6 +74,71 @@ def check(run, M, tier):
     _flip_circshift(run, M)
     _shapes(run, M)
     _blocks(run, M)
+    _wrappers(run, M)
+
+
+# operator class -> (function it wraps, {function keyword: constructor parameter it must receive}); a parameter that is None on a
+# constructor path may be handed on as None or as the function's own documented default (ZERO_DEFAULT: shift=None means no shift)
+WRAPPERS = {
+    "Resize": ("sigpy.util.resize", {"oshape": "oshape", "ishift": "ishift", "oshift": "oshift"}),
+    "Flip": ("sigpy.util.flip", {"axes": "axes"}),
+    "Circshift": ("sigpy.util.circshift", {"shifts": "shift", "axes": "axes"}),
+    "Downsample": ("sigpy.util.downsample", {"factors": "factors", "shift": "shift"}),
+    "Upsample": ("sigpy.util.upsample", {"oshape": "oshape", "factors": "factors", "shift": "shift"}),
+    "ArrayToBlocks": ("sigpy.block.array_to_blocks", {"blk_shape": "blk_shape", "blk_strides": "blk_strides"}),
+    "BlocksToArray": ("sigpy.block.blocks_to_array", {"oshape": "oshape", "blk_shape": "blk_shape", "blk_strides": "blk_strides"}),
+}
+ZERO_DEFAULT = {"shift"}
+
+
+def _wrappers(run, M):
+    """X8: the operator classes add nothing of their own to the index map: _apply is the function applied to the input with the
+    constructor's arguments, unchanged (so everything X1-X7 establish for the functions holds for the operators)"""
+    run.rule("X8", "Resize/Flip/Circshift/Downsample/Upsample/ArrayToBlocks/BlocksToArray._apply call their function on the input with exactly the constructor's "
+                   "arguments (a None default is passed on as None or as the function's documented default)")
+    alg = LinAlg(M)
+    n = 0
+    for cname, (fq, kws) in WRAPPERS.items():
+        cls = M.cls("sigpy.linop." + cname)
+        f, _ = alg.eval_method(alg.instances(cls)[0], "_apply")
+        for inst in alg.instances(cls):
+            _, res = alg.eval_method(inst, "_apply")
+            for conds, ret in res:
+                n += 1
+                ctext = [T.show(c, 120) for c in conds]
+                at = ret.single_atom() if isinstance(ret, T.Poly) else None
+                bad = []
+                if at is None or at[0] != "app" or at[1] != "fn:" + fq:
+                    bad.append("returns %s, not %s(input, ...)" % (_show(ret)[:160], fq.split(".")[-1]))
+                else:
+                    got = {}
+                    for x in at[2]:
+                        xa = T.dec(x).single_atom() if isinstance(T.dec(x), T.Poly) else None
+                        if xa is not None and xa[0] == "app" and xa[1].startswith("kw:"):
+                            got[xa[1][3:]] = T.dec(xa[2][0])
+                    if "input" not in got or T.show(_tt(got["input"]), 50) != "input":
+                        bad.append("the function is not applied to the operator's input")
+                    for kw, par in kws.items():
+                        v = got.get(kw)
+                        shown = "None" if v is None else T.show(_tt(v), 200)
+                        is_none = ("is(%s, None)" % par) in ctext
+                        allowed = {par}
+                        if is_none:
+                            allowed |= {"None"}
+                        ok = shown in allowed or (v is None and is_none)
+                        if not ok and is_none and kw in ZERO_DEFAULT and shown.startswith("repeat([0], len("):
+                            ok = True     # [0] * len(shape): the function's own default spelled out
+                        if not ok:
+                            bad.append("%s receives %s for `%s`; the constructor was given `%s`%s" % (
+                                fq.split(".")[-1], shown, kw, par, " = None" if is_none else ""))
+                run.check(not bad, "X8", "%s._apply [%s]" % (cname, cond_text(conds)[:60]), f.loc(), "is %s(input, constructor arguments)" % fq.split(".")[-1],
+                          "%s._apply under [%s]: %s" % (cname, cond_text(conds)[:100], "; ".join(bad[:3])), stmt="X8:%s:%s" % (cname, cond_text(conds)[:60]))
+    run.floor("X8", 7, n, "operator wrappers examined")
+
+
+def _tt(v):
+    from ..linopdesc import _t as _lt
+    return _lt(v)
 
 
 def _cmp(run, M, q, ref_src, rule):
